@@ -9,8 +9,9 @@ remote / on both sides with different heads, split by which head is greater in t
 variant / only local), stated over the two `(id, head)` lists.
 
 Headline: `diff_exact` — for two canonical indexes (by C08 `step_refines_canon` every index reached
-by any history is canonical) with the same parameters, injective digests (`DigOk`), the width
-hypothesis (`TopOk`, F-ldiff-width) on both sides, and counts below 2^32 on the wire: whenever the
+by any history is canonical) with the same parameters, injective digests (`DigOk`), a good splitter
+(`SplitterOk`, proved for the Go arithmetic: no width hypothesis since fix-width), and counts below
+2^32 on the wire: whenever the
 round loop ends, every one of the four lists contains exactly the specified ids, each once — for
 both variants, in process and through the wire adapters; `diff_terminates`: it ends within its 80
 rounds; `diff_total_exact` assembles both.
@@ -88,7 +89,7 @@ loop ends with result `c`, then each of the four lists `newIds`, `changed`, `the
 `removed` has no duplicates and contains exactly the ids the specification names. -/
 theorem diff_exact {D} [DecidableEq D] (A : DigAlg D) (S : Splitter) (p : Params) (hf : Nat → Nat)
     (a b : List Elem) (greater wire : Bool)
-    (hA : DigOk A) (hwa : SlWf hf a) (hwb : SlWf hf b) (hoka : TopOk S p a) (hokb : TopOk S p b)
+    (hA : DigOk A) (hwa : SlWf hf a) (hwb : SlWf hf b) (hS : SplitterOk S p.df)
     (hsmall : wire = true → b.length < 4294967296)
     (c : DCtx) (hd : diff A S greater wire (canon A S p a) (canon A S p b) = some c) :
     ∀ k, (c.get k).Nodup ∧ ∀ id, id ∈ c.get k ↔ id ∈ specK greater k (pairs a) (pairs b) := by
@@ -102,7 +103,7 @@ theorem diff_exact {D} [DecidableEq D] (A : DigAlg D) (S : Splitter) (p : Params
         have := spec_id_lt hf a b hwa hwb greater k id hs
         exact ⟨_, List.mem_singleton.mpr rfl, Nat.zero_le _, by show hf id ≤ M - 1; omega⟩
     · intro k; cases k <;> exact List.nodup_nil
-  have hfin := rounds_inv A S p hf a b greater wire hA hwa hwb hoka hokb hsmall 80 {} _ h0 c hd
+  have hfin := rounds_inv A S p hf a b greater wire hA hwa hwb (topOk_of_splitterOk S p a hS) (topOk_of_splitterOk S p b hS) hsmall 80 {} _ h0 c hd
   intro k
   refine ⟨hfin.nodup k, fun id => ?_⟩
   rw [hfin.mem k id]
@@ -110,31 +111,25 @@ theorem diff_exact {D} [DecidableEq D] (A : DigAlg D) (S : Splitter) (p : Params
   · exact fun h => h.1
   · exact fun h => ⟨h, fun ⟨r, hr, _⟩ => by cases hr⟩
 
-/-- **diff_exact for the Go arithmetic** (`goSplit`): the width hypothesis is the concrete
-`NoNarrow` (no range that must be divided is narrower than `df`). -/
+/-- **diff_exact for the Go arithmetic** (`goSplit`): no width hypothesis (fix-width). -/
 theorem diff_exact_go {D} [DecidableEq D] (A : DigAlg D) (p : Params) (hf : Nat → Nat)
     (a b : List Elem) (greater wire : Bool) (hdf : 2 ≤ p.df) (hM : p.df ≤ M)
     (hA : DigOk A) (hwa : SlWf hf a) (hwb : SlWf hf b)
-    (hna : ∀ i, i < p.df →
-      NoNarrow p a depthFuel (childRange 0 (M - 1) p.df i).1 (childRange 0 (M - 1) p.df i).2)
-    (hnb : ∀ i, i < p.df →
-      NoNarrow p b depthFuel (childRange 0 (M - 1) p.df i).1 (childRange 0 (M - 1) p.df i).2)
     (hsmall : wire = true → b.length < 4294967296)
     (c : DCtx) (hd : diff A goSplit greater wire (canon A goSplit p a) (canon A goSplit p b) = some c) :
     ∀ k, (c.get k).Nodup ∧ ∀ id, id ∈ c.get k ↔ id ∈ specK greater k (pairs a) (pairs b) :=
-  diff_exact A goSplit p hf a b greater wire hA hwa hwb (topOk_go p a hdf hM hna) (topOk_go p b hdf hM hnb)
-    hsmall c hd
+  diff_exact A goSplit p hf a b greater wire hA hwa hwb (splitterOk_go p.df hdf hM) hsmall c hd
 
 /-- **diff_terminates.** Under the width hypothesis the round loop ends within its 80 rounds: a
 pending range whose remote subtree has depth budget `g` has level `g + 2`, an element request
 level 1, the top range level `depthFuel + 3 = 73`; every round lowers all levels by one. -/
 theorem diff_terminates {D} [DecidableEq D] (A : DigAlg D) (S : Splitter) (p : Params) (hf : Nat → Nat)
     (a b : List Elem) (greater wire : Bool)
-    (hA : DigOk A) (hwa : SlWf hf a) (hwb : SlWf hf b) (hoka : TopOk S p a) (hokb : TopOk S p b)
+    (hA : DigOk A) (hwa : SlWf hf a) (hwb : SlWf hf b) (hS : SplitterOk S p.df)
     (hsmall : wire = true → b.length < 4294967296) :
     ∃ c, diff A S greater wire (canon A S p a) (canon A S p b) = some c := by
   unfold diff
-  apply rounds_terminate A S p hf a b greater wire hA hwa hwb hoka hokb hsmall (depthFuel + 3) 80
+  apply rounds_terminate A S p hf a b greater wire hA hwa hwb (topOk_of_splitterOk S p a hS) (topOk_of_splitterOk S p b hS) hsmall (depthFuel + 3) 80
   · intro r hr
     rw [List.mem_singleton.mp hr]
     exact Or.inr (Or.inr ⟨rfl, Nat.le_refl _⟩)
@@ -143,26 +138,23 @@ theorem diff_terminates {D} [DecidableEq D] (A : DigAlg D) (S : Splitter) (p : P
 /-- **C07, assembled**: the diff terminates and reports exactly the specified ids, each once. -/
 theorem diff_total_exact {D} [DecidableEq D] (A : DigAlg D) (S : Splitter) (p : Params) (hf : Nat → Nat)
     (a b : List Elem) (greater wire : Bool)
-    (hA : DigOk A) (hwa : SlWf hf a) (hwb : SlWf hf b) (hoka : TopOk S p a) (hokb : TopOk S p b)
+    (hA : DigOk A) (hwa : SlWf hf a) (hwb : SlWf hf b) (hS : SplitterOk S p.df)
     (hsmall : wire = true → b.length < 4294967296) :
     ∃ c, diff A S greater wire (canon A S p a) (canon A S p b) = some c ∧
       ∀ k, (c.get k).Nodup ∧ ∀ id, id ∈ c.get k ↔ id ∈ specK greater k (pairs a) (pairs b) := by
-  obtain ⟨c, hc⟩ := diff_terminates A S p hf a b greater wire hA hwa hwb hoka hokb hsmall
-  exact ⟨c, hc, diff_exact A S p hf a b greater wire hA hwa hwb hoka hokb hsmall c hc⟩
+  obtain ⟨c, hc⟩ := diff_terminates A S p hf a b greater wire hA hwa hwb hS hsmall
+  exact ⟨c, hc, diff_exact A S p hf a b greater wire hA hwa hwb hS hsmall c hc⟩
 
-/-- the same for the Go arithmetic, with the concrete width hypothesis `NoNarrow` -/
+/-- **C07 for the Go arithmetic, unconditional in the contents**: for ANY two element sets (ids
+determine 64-bit hashes), any `df ≥ 2`, `thr`, both variants, in process and on the wire (counts
+below 2^32): the diff terminates and reports exactly the specified ids, each once. -/
 theorem diff_total_exact_go {D} [DecidableEq D] (A : DigAlg D) (p : Params) (hf : Nat → Nat)
     (a b : List Elem) (greater wire : Bool) (hdf : 2 ≤ p.df) (hM : p.df ≤ M)
     (hA : DigOk A) (hwa : SlWf hf a) (hwb : SlWf hf b)
-    (hna : ∀ i, i < p.df →
-      NoNarrow p a depthFuel (childRange 0 (M - 1) p.df i).1 (childRange 0 (M - 1) p.df i).2)
-    (hnb : ∀ i, i < p.df →
-      NoNarrow p b depthFuel (childRange 0 (M - 1) p.df i).1 (childRange 0 (M - 1) p.df i).2)
     (hsmall : wire = true → b.length < 4294967296) :
     ∃ c, diff A goSplit greater wire (canon A goSplit p a) (canon A goSplit p b) = some c ∧
       ∀ k, (c.get k).Nodup ∧ ∀ id, id ∈ c.get k ↔ id ∈ specK greater k (pairs a) (pairs b) :=
-  diff_total_exact A goSplit p hf a b greater wire hA hwa hwb
-    (topOk_go p a hdf hM hna) (topOk_go p b hdf hM hnb) hsmall
+  diff_total_exact A goSplit p hf a b greater wire hA hwa hwb (splitterOk_go p.df hdf hM) hsmall
 
 /-- `compareElementsEqual` / `compareElementsGreater` append exactly the specified ids (re-exported) -/
 theorem compareElements_exact (g : Bool) (c : DCtx) (my other : List (Nat × Nat)) (k : Kind) :
